@@ -603,7 +603,10 @@ class SequenceEncoder(AbstractItemEncoder):
                                 **dict(options, wrapType=wrapType.componentType))
 
                     else:
-                        chunk = encodeFun(component, asn1Spec, **options)
+                        # the inner value is written in full: `ifNotEmpty`
+                        # is about the field, not about what it holds
+                        chunk = encodeFun(component, asn1Spec,
+                                          **dict(options, ifNotEmpty=False))
 
                         # only a ready-made ANY blob goes in as is; a typed
                         # value is wrapped even if its own tag coincides
